@@ -100,8 +100,8 @@ def run(ctx, R, tier):
                 # the constant packed must be the constant the decoder compares the unpacked local with
                 cmp_ok = False
                 for n in walk_no_nested(rcv.node):
-                    if isinstance(n, ast.Compare) and len(n.ops) == 1 and isinstance(n.ops[0], (ast.NotEq, ast.Eq)) and unparse(n.left) == unparse(tg):
-                        other = n.comparators[0]
+                    if isinstance(n, ast.Compare) and len(n.ops) == 1 and isinstance(n.ops[0], (ast.NotEq, ast.Eq)) and unparse(tg) in (unparse(n.left), unparse(n.comparators[0])):
+                        other = n.comparators[0] if unparse(n.left) == unparse(tg) else n.left     # symmetric: either operand order
                         if const_roles[i] is None:
                             cmp_ok = isinstance(other, ast.Constant) and isinstance(pv, ast.Constant) and other.value == pv.value
                         else:
@@ -138,12 +138,15 @@ def run(ctx, R, tier):
     expect = {PROTO + "._protocol_version_bytes": offs[1], PROTO + "._magic_number_bytes": offs[10]}
     found = {}
     for n in walk_no_nested(val.node):
-        if isinstance(n, ast.Compare) and len(n.ops) == 1 and isinstance(n.left, ast.Subscript) and isinstance(n.left.slice, ast.Slice):
-            for q in expect:
-                if ctx.resolves_to_object(n.comparators[0], val, q):
-                    lo = ctx.const(n.left.slice.lower, val) if n.left.slice.lower is not None else (True, 0)
-                    hi = ctx.const(n.left.slice.upper, val) if n.left.slice.upper is not None else (False, None)
-                    found[q] = (lo[1], hi[1], n)
+        if isinstance(n, ast.Compare) and len(n.ops) == 1 and isinstance(n.ops[0], (ast.Eq, ast.NotEq)):
+            for sl, other in ((n.left, n.comparators[0]), (n.comparators[0], n.left)):      # symmetric: either operand order
+                if not (isinstance(sl, ast.Subscript) and isinstance(sl.slice, ast.Slice)):
+                    continue
+                for q in expect:
+                    if ctx.resolves_to_object(other, val, q):
+                        lo = ctx.const(sl.slice.lower, val) if sl.slice.lower is not None else (True, 0)
+                        hi = ctx.const(sl.slice.upper, val) if sl.slice.upper is not None else (False, None)
+                        found[q] = (lo[1], hi[1], n)
     for q, (lo_e, hi_e) in expect.items():
         got = found.get(q)
         R.check(got is not None and (got[0], got[1]) == (lo_e, hi_e), "C06-R3", "validate|slice:%s" % q.rsplit(".", 1)[1],
@@ -244,11 +247,21 @@ def run(ctx, R, tier):
     R.check(ok and dec_ok, "C06-R3", "decoder|chunk-length-unsigned", "chunk lengths are decoded as the unsigned big-endian field the encoder writes", addp.loc(), why)
 
     # ---------------------------------------------------------------- R4
+    def size_side(atom):
+        """(checked size expression, polarity under which the size exceeds the limit) for `LIMIT < size` (the canonical reading of `size > LIMIT`) and for
+        `size <= LIMIT` (the same decision written from the accepting side)"""
+        if isinstance(atom, ast.Compare) and len(atom.ops) == 1:
+            if isinstance(atom.ops[0], ast.Lt) and unparse(atom.left) == "config.MAX_MESSAGE_SIZE":
+                return atom.comparators[0], True
+            if isinstance(atom.ops[0], ast.LtE) and unparse(atom.comparators[0]) == "config.MAX_MESSAGE_SIZE":
+                return atom.left, False
+        return None, None
+
     def too_large(side_ok):
         def pred(atom, pol):
-            if isinstance(atom, ast.Compare) and len(atom.ops) == 1 and isinstance(atom.ops[0], ast.Gt) and \
-                    (unparse(atom.comparators[0]) == "config.MAX_MESSAGE_SIZE"):
-                return pol is side_ok
+            sz, exceeds = size_side(atom)
+            if sz is not None:
+                return pol is (side_ok if exceeds else (not side_ok))
             return False
         return pred
     R.check(rcfg.guarded(rcfg.exit, lambda e: edge_has_fact(e, too_large(False))), "C06-R4", "receiver|size-check-dominates",
@@ -257,11 +270,11 @@ def run(ctx, R, tier):
     from ..engine.guards import strip_not
 
     def size_atoms(test):
-        return [a for a, pl in facts_of(test, True) + facts_of(test, False) if too_large(True)(a, True)]
+        return [a for a, pl in facts_of(test, True) + facts_of(test, False) if size_side(a)[0] is not None]
     size_tests = [n for n in rcfg.nodes if n.kind == "test" and size_atoms(n.ast.test)]
     ok = bool(size_tests)
     if ok:
-        left = size_atoms(size_tests[0].ast.test)[0].left
+        left = size_side(size_atoms(size_tests[0].ast.test)[0])[0]
         ok = left is not None and {unparse(x) for x in ast.walk(left) if isinstance(x, ast.Attribute)} >= {"self.data_size", "self.annotations_size"}
     R.check(ok, "C06-R4", "receiver|checks-sum", "the receiver compares data_size + annotations_size with the limit", rcv.loc(),
             "the receiver's size check does not cover both length fields")
@@ -281,7 +294,7 @@ def run(ctx, R, tier):
     if s_tests:
         srd = ctx.rd(snd)
         t = s_tests[0]
-        sz = size_atoms(t.ast.test)[0].left
+        sz = size_side(size_atoms(t.ast.test)[0])[0]
         ok = True
         why = ""
         # every variable the checked size derives from must have the same reaching definitions at the check and at the pack
@@ -373,7 +386,7 @@ def run(ctx, R, tier):
         tg = unparse(targets[name_idx])
 
         def pred(atom, pol):
-            if isinstance(atom, ast.Compare) and len(atom.ops) == 1 and unparse(atom.left) == tg:
+            if isinstance(atom, ast.Compare) and len(atom.ops) == 1 and tg in (unparse(atom.left), unparse(atom.comparators[0])):
                 return (isinstance(atom.ops[0], ast.NotEq) and pol is False) or (isinstance(atom.ops[0], ast.Eq) and pol is True)
             return False
         return pred
